@@ -82,6 +82,20 @@ def run_parity(ctx: Ctx) -> RuleResult:
         if not ok:
             res.finding(nr, nr.node, 'Transformer_NonRecursive.transform differs from Transformer on %s (reference %s, here %s)'
                         % (k_, ref[k_], fe[k_]), construct='nonrec:' + k_)
+    # the reference traversal: a child is EITHER a tree (transformed) OR a token (terminal callback) -- the result of a rule callback is not
+    # looked at again (a Token returned by a rule callback must not be fed to the terminal callback)
+    from ..exprs import path_conditions as _pcx
+    tokc = [c for c in base_children.body_nodes() if isinstance(c, ast.Call) and norm(c.func).endswith('._call_userfunc_token')]
+    if len(tokc) == 1:
+        cv_ = norm(tokc[0].args[0]) if tokc[0].args else '?'
+        excl = any(norm(t) == 'isinstance(%s, Tree)' % cv_ and not pol for t, pol in _pcx(enclosing_stmt(tokc[0])))
+        rebinds = [a for a in base_children.body_nodes() if isinstance(a, ast.Assign) and len(a.targets) == 1 and norm(a.targets[0]) == cv_]
+        okx = excl and not rebinds
+        res.ob('%s %s' % (base_children.loc(), base_children.qual), 'a child is transformed as a tree or as a token, never both (the loop variable is not rebound)', okx)
+        if not okx:
+            res.finding(base_children, tokc[0], 'Transformer._transform_children applies the terminal callback also to what a rule callback returned (%s): a Token '
+                        'returned by a rule callback is transformed a second time' % ('the token test is not the alternative of the tree test' if not excl else
+                                                                                      'the loop variable is rebound to the result'), construct='ref:exclusive')
     # stack discipline: a node takes `len(children)` entries from the stack, so every element of the postfix order must leave exactly
     # one entry -- on every path through one round of the loop -- and what a callback discarded is dropped where the entries are taken
     loops = [n for n in nr.body_nodes() if isinstance(n, ast.For) and norm(n.iter).startswith('reversed(')]
@@ -112,8 +126,8 @@ def run_parity(ctx: Ctx) -> RuleResult:
             # the entries a node takes are filtered
             for t in takes:
                 p_ = parent(t)
-                if isinstance(p_, ast.comprehension) and any(isinstance(c, ast.Compare) and len(c.ops) == 1 and isinstance(c.ops[0], ast.IsNot)
-                                                              and norm(c.comparators[0]) == 'Discard' for i_ in p_.ifs for c in ast.walk(i_)):
+                if isinstance(p_, ast.comprehension) and len(p_.ifs) == 1 and isinstance(p_.ifs[0], ast.Compare) and len(p_.ifs[0].ops) == 1 \
+                        and isinstance(p_.ifs[0].ops[0], ast.IsNot) and norm(p_.ifs[0].comparators[0]) == 'Discard' and norm(p_.ifs[0].left) == norm(p_.target):
                     ok_take = True
             # a discarded root gives None, as in Transformer.transform
             ok_root = any(isinstance(n, ast.If) and any(isinstance(c, ast.Compare) and len(c.ops) == 1 and isinstance(c.ops[0], ast.Is)
@@ -131,7 +145,7 @@ def run_parity(ctx: Ctx) -> RuleResult:
     res.ob(s2, 'non-recursive traversal drops discarded results where a node takes its arguments, and a discarded root gives None', ok or not ok_bal)
     if ok_bal and not ok:
         res.finding(nr, nr.node, 'Transformer_NonRecursive.transform no longer drops Discard %s'
-                    % ('from the arguments a node takes off the stack' if not ok_take else 'at the root (Transformer returns None there)'),
+                    % ('-- and nothing else -- from the arguments a node takes off the stack' if not ok_take else 'at the root (Transformer returns None there)'),
                     construct='nonrec:discard')
     # children before parents: postfix evaluation over reversed(rev_postfix)
     ok = any(isinstance(n, ast.For) and norm(n.iter).startswith('reversed(') for n in nr.body_nodes())
